@@ -36,17 +36,17 @@ type DepBind struct {
 
 // RegInfo is what the model knows about one registration.
 type RegInfo struct {
-	Reject   string // "" accepted; otherwise the expected rejection class
-	Meta     *pool.Meta
-	Idents   []IdentKey // service identities provided (per output; "" type when grouped)
-	Groups   []GroupKey // group identities provided (per output; "" type when not grouped)
-	Binds    []DepBind
-	Void     bool
-	Life     godi.Lifetime
-	NumOuts  int
-	Disposes []bool // per output: instance type has Close() error
-	LiveOut  []bool // per output: still registered (not taken out by a Remove step)
-	IsRemove bool   // the step is a Remove / RemoveKeyed call
+	Reject    string // "" accepted; otherwise the expected rejection class
+	Meta      *pool.Meta
+	Idents    []IdentKey // service identities provided (per output; "" type when grouped)
+	Groups    []GroupKey // group identities provided (per output; "" type when not grouped)
+	Binds     []DepBind
+	Void      bool
+	Life      godi.Lifetime
+	NumOuts   int
+	Disposes  []bool // per output: instance type has Close() error
+	LiveOut   []bool // per output: still registered (not taken out by a Remove step)
+	IsRemove  bool   // the step is a Remove / RemoveKeyed call
 	identOut  []int  // per identity: output index
 	identGone []bool // per identity: removed by a later Remove step
 }
